@@ -24,6 +24,10 @@ def run(pid, tier):
     scen = pc.gen(rep, 'C17', dict(MaxUnits=n), nparts=8)
     obs = pc.execute(rep, scen, 'default', 'C17')
     pc.validate(rep, 'C17', scen, obs, 'C17-default', kindfn=kind, fields=pc.FIELDS['C06'] | {'errs', 'out.block-header'})
+    # the build without device-dependent error information has its own branches in the result functions
+    small = [s for s in scen if sum(len(c) for c in s['chunks']) < 64 and not any(o[0] == 'r' and o[1] == 'blk' and len(o[2]) > 300 for sc_ in s['scripts'] for o in sc_[3])]
+    obs2 = pc.execute(rep, small, 'noinfo', 'C17n')
+    pc.validate(rep, 'C17', small, obs2, 'C17-noinfo', info=0, kindfn=kind, fields=pc.FIELDS['C06'] | {'errs', 'out.block-header'})
     def nontriv(sc):
         ops = sc['scripts'][0][3]
         return any(o[0] == 'bd' for o in ops) or (ops[0][0] == 'r' and len(ops[0]) == 5 and ops[0][3] == 0) or ops[0][0] == 'bh' or (ops[0][1] == 'blk' and len(ops[0][2]) in (0, 9, 10, 99, 100))
